@@ -51,6 +51,7 @@ PROPS = {
         "scenarios": [
             {"name": "stack", "quick": 40000, "thorough": 2000000, "thorough_time": 300, "extra": ["-sim.only=get-failed,read-mask,read-changed-state,pull-failed,pull-no-seed,pull-seed,pull-name,unrouted,rejected-update-changed-state,read-your-write,update-not-streamed,stream-order-differs,rpc-stuck,panic"]},
             {"name": "stack-race", "quick": 20000, "thorough": 1000000, "thorough_time": 150, "extra": ["-sim.only=get-failed,read-mask,read-changed-state,pull-failed,pull-no-seed,pull-seed,pull-name,unrouted,rejected-update-changed-state,read-your-write,update-not-streamed,stream-order-differs,rpc-stuck,panic"]},
+            {"name": "stack-relative", "quick": 10000, "thorough": 500000, "thorough_time": 60},
         ],
         "case_space": "from_worker",
         "case_space_what": "(discovered server, Get/Update/Pull triple) pairs",
@@ -219,6 +220,7 @@ PROPS = {
             {"name": "lin-hail", "quick": 10000, "thorough": 500000, "thorough_time": 40},
             {"name": "lin-delta", "quick": 10000, "thorough": 500000, "thorough_time": 40},
             {"name": "lin-waste", "quick": 4000, "thorough": 100000, "thorough_time": 40},
+            {"name": "lin-elec", "quick": 20000, "thorough": 1000000, "thorough_time": 60, "extra": ["-sim.only=clear-active,delete-absent,deadlock,caller-stuck,panic,internal-panic"]},
             {"name": "lin-servers", "quick": 20000, "thorough": 1000000, "thorough_time": 80},
         ],
         "require_hits": ["resource.gau.commit", "collection.delete.commit", "value.publish", "collection.publish"],
